@@ -30,6 +30,20 @@ UNIVERSES = {
 BLOWUP = [("A{{a|x}}B", {"a": "{{{1}}}{{a|{{{1}}}{{{1}}}}}"}), ("A{{a|k=x}}B", {"a": "{{{k}}}{{a|k={{{k}}}{{{k}}}}}"})]
 PAGES_FOR_TEMPLATE_ENUM = ["{{a}}", "{{a|b|1}}", "x{{b}}y{{a|1=b}}"]
 
+# cyclic universes whose recursive call occurs twice inside a LAZILY fetched argument of a magic word / parser function
+# dispatched by MagicResolver (the OCaml driver has the matching strategies: #ifexpr on integer conditions, lc, padleft,
+# #iferror); %s = the recursive text.  TemplateRecursion raised while the argument is flattened must pass through the call.
+LAZY_RECS = [("x{{a}}{{a}}", {}), ("x{{b}}{{b}}", {"b": "y{{a}}"}), ("{{a|{{{1}}}1}}{{a}}", {})]
+LAZY_BODIES = ["{{#ifexpr:1|%s}}", "{{#ifexpr: 0 |n|%s}}", "{{#ifexpr:0|%s|n}}", "{{#ifexpr:|%s|m}}", "{{#ifexpr|1|%s}}", "{{#ifexpr|0|n|%s}}",
+               "{{#ifexpr|{{{1|1}}}|%s|n}}", "{{#IfExpr:7|<%s>}}",
+               "{{lc:%s}}", "{{lc|%s}}", "x{{LC|A%sB}}", "{{lc}}%s",
+               "{{padleft:%s|5}}", "{{padleft:x|5|%s}}", "{{padleft:x|k|%s}}", "{{padleft|%s|3|ab}}", "{{padleft:x|{{{1|4}}}|%s}}",
+               "{{padleft:x|9|}}{{padleft:ab|-3}}%s",
+               "{{#iferror:1|%s}}", "{{#iferror:1|2|%s}}", "{{#iferror:%s|2}}", "{{#iferror|%s|2|3}}"]
+LAZY_PAGES = ["s {{a}} e", "{{a}}{{a|1}}", "[{{a|0}}]"]
+LAZY_LIMITS = [100, 0, 1, 2, 3, 5, 8, 13, 21]
+LAZY_CPU_LIMIT = 1.5
+
 
 def build():
     return core.ocaml_build("c03", "C03/Extract.v", "driver.ml")
@@ -44,8 +58,17 @@ def strings(alpha, maxlen):
 def gen_cases(rng, tier):
     cases = []
 
-    def add(page, db, limit, group, nomodel=False):
+    def add(page, db, limit, group, nomodel=False, cpu_limit=None):
         cases.append({"id": len(cases), "page": page, "db": db, "limit": limit, "group": group, "nomodel": nomodel})
+        if cpu_limit is not None:
+            cases[-1]["cpu_limit"] = cpu_limit
+    for rec, extra in LAZY_RECS:
+        for body in LAZY_BODIES:
+            db = {"a": body % rec}
+            db.update(extra)
+            for pg in LAZY_PAGES:
+                for lim in (LAZY_LIMITS if tier != "quick" or pg == LAZY_PAGES[0] else [100, rng.choice(LAZY_LIMITS[1:])]):
+                    add(pg, db, lim, "lazy-magic-recursion", cpu_limit=LAZY_CPU_LIMIT)
     for pg, db in BLOWUP:
         add(pg, db, 100, "directed-blowup", nomodel=True)
     l9 = 4 if tier == "quick" else 5
@@ -80,7 +103,7 @@ def enc_str(s):
 
 def run_real(src, cases, nproc):
     def shard(part):
-        inp = "".join(json.dumps({"id": c["id"], "page": c["page"], "db": c["db"], "limit": c["limit"]}) + "\n" for c in part)
+        inp = "".join(json.dumps({k: c[k] for k in ("id", "page", "db", "limit", "cpu_limit") if k in c}) + "\n" for c in part)
         rc, out = core.run_impl("vt.harness.c04_tpl", ["400"], src=src, input=inp, timeout=3000)
         got = {}
         for ln in out.splitlines():
@@ -130,6 +153,8 @@ def run_model(exe, cases, real, nproc):
             if ln.startswith("OK"):
                 toks = ln.split()
                 res[i] = ("ok", "".join(chr(int(t)) for t in toks[2:]))
+            elif ln.startswith("UNSUP"):
+                res[i] = ("unsup", ln)
             else:
                 res[i] = ("err", ln)
         return res
@@ -153,7 +178,7 @@ def run(run, src):
     dis = []
     groups = {}
     stats = {"ok": 0, "exc": 0, "crash": 0, "unsupported-node": 0, "excluded-dup-or-computed-arg-names": 0,
-             "model-top-level-empty-or-dropped": 0}
+             "model-top-level-empty-or-dropped": 0, "magic-outside-the-driver's-sub-domain": 0}
     for c in cases:
         r = real[c["id"]]
         g = groups.setdefault(c["group"].split(":")[0], {"cases": 0})
@@ -161,6 +186,8 @@ def run(run, src):
         nontriv = "{{" in c["page"] and ("}}" in c["page"])
         run.count((c["page"], tuple(sorted(c["db"].items())), c["limit"]), nontrivial=nontriv)
         replay = {"kind": "universe", "page": c["page"], "db": c["db"], "limit": c["limit"]}
+        if "cpu_limit" in c:
+            replay["cpu_limit"] = c["cpu_limit"]
         # monitor: a str comes back, no exception, no crash
         if "crash" in r:
             stats["crash"] += 1
@@ -173,7 +200,8 @@ def run(run, src):
             continue
         if r["exc"] is not None:
             stats["exc"] += 1
-            run.hit("exc:" + r["exc"].split(":")[0] + (":argument-doubling" if c["group"] == "directed-blowup" else ":expand"),
+            run.hit("exc:" + r["exc"].split(":")[0] + (":argument-doubling" if c["group"] == "directed-blowup" else
+                                                       ":recursion-in-magic-argument" if c["group"] == "lazy-magic-recursion" else ":expand"),
                     "expandTemplates raised %s on %r with templates %r (recursion_limit=%s)" % (r["exc"], c["page"], c["db"], c["limit"]), replay)
             continue
         stats["ok"] += 1
@@ -183,6 +211,9 @@ def run(run, src):
             stats["unsupported-node"] += 1
             continue
         kind, val = model[c["id"]]
+        if kind == "unsup":
+            stats["magic-outside-the-driver's-sub-domain"] += 1
+            continue
         if kind != "ok" or val != r["out"]:
             if r.get("flags"):
                 stats["excluded-dup-or-computed-arg-names"] += 1
@@ -197,11 +228,15 @@ def run(run, src):
                  "parameters, parameter named by parameter, name from argument, empty) x ALL page texts of <=%d tokens over "
                  "{{{ }} {{{ }}} | = a b 1} and of <=6 tokens over {{{ }} {{{ }}} | a}; ALL template texts of <=%d tokens under 3 calling pages; "
                  "(quick: the 6-token pages only on the mutual-recursion universe and only pages with both brace runs; thorough: on all universes); "
-                 "a sample of them (5 000 quick / 300 000 thorough) also under recursion limits 0..8; non-trivial = page contains an opening and a closing brace run" % (l9, l9)),
+                 "a sample of them (5 000 quick / 300 000 thorough) also under recursion limits 0..8; plus %d cyclic universes whose recursive call "
+                 "occurs twice inside a lazily fetched argument of #ifexpr / lc / padleft / #iferror (colon and pipe forms, taken and untaken "
+                 "branches, self / mutual / argument-passing recursion) x 3 pages x recursion limits 100, 0, 1, 2, 3, 5, 8, 13, 21 under a %gs CPU "
+                 "limit; non-trivial = page contains an opening and a closing brace run"
+                 % (l9, l9, len(LAZY_RECS) * len(LAZY_BODIES), LAZY_CPU_LIMIT)),
         "trusted": ["hand-written Gallina model of evaluate.flatten / ArgumentList.get / insert_implicit_newlines / nodes.pyx (coq/C03/Model.v), tied by this run",
                     "templ.parser (its output is fed to the model)"],
         "assumptions": ["ArgumentList's incremental name scan is modelled statelessly (first matching argument): calls with duplicate or computed argument names are compared but excluded from the tie when they differ (counted)",
-                        "magic words and parser functions are abstract total functions in the model (their totality is the search's job)",
+                        "magic words and parser functions are abstract strategies over their lazily fetched arguments in the model (mreq); the tie instantiates #ifexpr (integer conditions), lc (ASCII), padleft (plain decimal widths), #iferror (no '<') in ocaml/c03/driver.ml; totality and size of every other magic is the search's job",
                         "the interpreter-level RecursionError path (swallowed per template) is not modelled"],
         "distribution": {"flatten_tie": {"groups": groups, "outcomes": stats}},
         "coverage": {"exhaustive_part": "all page texts of <=%d tokens over a 9-token alphabet and <=6 tokens over a 6-token alphabet on fixed universes" % l9},
@@ -209,7 +244,7 @@ def run(run, src):
 
 
 def replay(r, src):
-    inp = json.dumps({"id": 0, "page": r["page"], "db": r["db"], "limit": r.get("limit")}) + "\n"
+    inp = json.dumps({"id": 0, "page": r["page"], "db": r["db"], "limit": r.get("limit"), "cpu_limit": r.get("cpu_limit")}) + "\n"
     rc, out = core.run_impl("vt.harness.c04_tpl", [], src=src, input=inp, timeout=300)
     o = None
     for ln in out.splitlines():
